@@ -80,6 +80,8 @@ pub struct ShardCtx {
     pub inconclusive: u64,
     /// While true (proptest is shrinking) nothing is counted.
     pub frozen: bool,
+    /// shrink budget of the next proptest stage (expensive oracles lower it)
+    pub max_shrink_iters: u32,
 }
 
 impl ShardCtx {
@@ -104,6 +106,7 @@ impl ShardCtx {
             exhaustive: None,
             inconclusive: 0,
             frozen: false,
+            max_shrink_iters: 1500,
         }
     }
 
